@@ -72,11 +72,15 @@ class Gen:
         r = self.rng
         k = r.choice(kinds)
         if k == "int":
+            if r.random() < 0.03:
+                return I(r.choice([10 ** 12, 2 ** 31, 99999]))            # long literals (opaque atoms for TLC)
             return I(r.choice([0, 1, 2, 3, 4, 5, 7, 10, 12]))
         if k == "float":
+            if r.random() < 0.04:
+                return F(*r.choice([(1, 10 ** 9), (25 * 10 ** 11, 1), (0, 1), (1, 10 ** 30), (123456789, 1000)]))
             return F(r.choice([1, 3, 5, 7, 9, 11, 25]), r.choice([2, 4, 5, 8, 10, 20]))
         from fractions import Fraction
-        re_, im = Fraction(r.choice([0, 1, 2, 3]), r.choice([1, 2])), Fraction(r.choice([-2, -1, 1, 2, 5]), r.choice([1, 2, 4]))
+        re_, im = Fraction(r.choice([0, 1, 2, 3]), r.choice([1, 2])), Fraction(r.choice([-2, -1, 1, 2, 5, 0]), r.choice([1, 2, 4]))
         return {"t": "cpx", "re": [re_.numerator, re_.denominator], "im": [im.numerator, im.denominator]}
 
     def leaf(self, ctx, kinds):
@@ -125,7 +129,7 @@ class Gen:
         r = self.rng
         c = r.random()
         if c < 0.08:
-            return {"t": "str", "s": r.choice(["a", "hello", "x_1", "two words", "\u00e9 \u65e5"])}
+            return {"t": "str", "s": r.choice(["a", "hello", "x_1", "two words", "\u00e9 \u65e5", "1.5", "True", "p0", "q1", "{a}", "pi", "for", "1j", ""])}
         if c < 0.14:
             return {"t": "bool", "b": r.random() < 0.5}
         if c < 0.24:
@@ -318,8 +322,8 @@ class Gen:
                     d["args"] = [self.val(Ctx(), 1) for _ in range(r.choice([1, 2]))]
             return d
         s = {"name": r.choice(["prog", "test_1", "Tele"]), "version": "1.0", "target": meta(r.choice(["gaussian", "X8_01", "fock"])),
-             "type": meta(r.choice(["tdm", "sampling", "tdm"])), "incs": [], "body": []}
-        tdm = s["type"]["name"] == "tdm"
+             "type": meta(r.choice(["tdm", "sampling", "tdm", "TDM"])), "incs": [], "body": []}
+        tdm = s["type"]["name"] in ("tdm", "TDM")       # (p-arrays are generated under both; only "tdm" makes them special)
         ctx.tdm = tdm
         n = size if size is not None else r.choice([1, 2, 3, 4, 5, 6, 8])
         for _ in range(n):
